@@ -363,3 +363,66 @@ func TestPropRefusalTail(t *testing.T) {
 		ev.Sample(fmt.Sprintf("[%s] refuse %s %s then [%s] -> %v, wire %q", c, what, bad, tail, err, clip(string(out))))
 	})
 }
+
+// TestReplayAnyFlag: the shrunk failures of TestPropAnyFlag as plain checks
+// (F-C01c: U+0130 folded onto "i" by the canonicalisation of well-known
+// names), plus the boundary cases of the accept-or-refuse oracle.
+func TestReplayAnyFlag(t *testing.T) {
+	type tc struct {
+		s    string
+		attr bool
+		want string // "" = must be refused
+	}
+	cases := []tc{
+		{"$Phİshing", false, "$Phİshing"},
+		{"\\NonExİstent", true, "\\NonExİstent"},
+		{"\\İmportant", true, "\\İmportant"},
+		{"\\ſeen", false, "\\ſeen"},
+		{"\\SEEN", false, "\\Seen"},
+		{"$mdnsent", false, "$MDNSent"},
+		{"\\noinferiors", true, "\\Noinferiors"},
+		{"a b", false, ""},
+		{"\\", false, ""},
+		{"Seen", true, ""},
+	}
+	for _, c := range cases {
+		var buf bytes.Buffer
+		bw := bufio.NewWriter(&buf)
+		e := imapwire.NewEncoder(bw, imapwire.ConnSideServer)
+		if c.attr {
+			e.MailboxAttr(imap.MailboxAttr(c.s))
+		} else {
+			e.Flag(imap.Flag(c.s))
+		}
+		err := e.CRLF()
+		ev.Eval()
+		if c.want == "" {
+			if err == nil {
+				t.Fatalf("malformed %q accepted: %q", c.s, buf.String())
+			}
+			continue
+		}
+		if err != nil {
+			t.Fatalf("%q refused: %v", c.s, err)
+		}
+		d := imapwire.NewDecoder(bufio.NewReader(bytes.NewReader(buf.Bytes())), imapwire.ConnSideClient)
+		var got string
+		if c.attr {
+			a, derr := internal.ExpectMailboxAttr(d)
+			if derr != nil {
+				t.Fatalf("%q: decoder: %v", c.s, derr)
+			}
+			got = string(a)
+		} else {
+			f, derr := internal.ExpectFlag(d)
+			if derr != nil {
+				t.Fatalf("%q: decoder: %v", c.s, derr)
+			}
+			got = string(f)
+		}
+		if got != c.want || !d.ExpectCRLF() {
+			t.Fatalf("%q decoded as %q, want %q (F-C01c: only ASCII case is normalised)", c.s, got, c.want)
+		}
+	}
+	ev.NonTrivial("replay:anyflag")
+}
